@@ -307,3 +307,47 @@ func vhgRenameVsBind(wga bool, bind string, self, cross bool) map[string]interfa
 	}
 	return s.gatedRecord("gated-rename-bind", np, replied)
 }
+
+// vhgRenamedPanic: the backend panics inside the Renamed callback of a File one level (deep: two levels) below a
+// directory that is renamed - inside notifyNameChange, after references were taken on the fidRefs told so far.
+// The request is answered (EFAULT, recovered); then every connection is dropped.  Judged: every File closed
+// exactly once, none used after its Close, Handle returned, no goroutine left - references taken for the
+// notifications must be given back on the panic path too, or the Files told so far and all their ancestors
+// are never closed.  Sequential; evaluated as a CGated record (property only: backend panics are outside the model).
+func vhgRenamedPanic(wga, deep, cross bool) map[string]interface{} {
+	s := vhsNewSess(wga, nil)
+	s.exec(vhsOp{K: "attach", A: []int{0, 0}})
+	s.exec(vhsOp{K: "attach", A: []int{1, 0}})
+	s.exec(vhsOp{K: "mk", A: []int{0, 0, 0, 1}})
+	s.exec(vhsOp{K: "mk", A: []int{0, 0, 0, 2}})
+	s.exec(vhsOp{K: "walk", A: []int{0, 0, 2}, Names: []int{2}}) // fid 2 on /n2
+	s.exec(vhsOp{K: "walk", A: []int{0, 0, 1}, Names: []int{1}}) // fid 1 on /n1
+	s.exec(vhsOp{K: "mk", A: []int{0, 0, 1, 4}})
+	s.exec(vhsOp{K: "walk", A: []int{0, 1, 3}, Names: []int{4}}) // fid 3 on /n1/n4
+	s.fs.mu.Lock()
+	h := s.fs.nextH - 1
+	s.fs.mu.Unlock()
+	s.exec(vhsOp{K: "walk", A: []int{1, 0, 6}, Names: []int{1, 4}}) // connection 1: a second fidRef on /n1/n4 (and one on /n1)
+	s.exec(vhsOp{K: "mk", A: []int{1, 0, 3, 5}})
+	s.exec(vhsOp{K: "walk", A: []int{0, 3, 5}, Names: []int{5}}) // fid 5 on /n1/n4/n5
+	if deep {
+		s.fs.mu.Lock()
+		h = s.fs.nextH - 1
+		s.fs.mu.Unlock()
+	}
+	s.exec(vhsOp{K: "walk", A: []int{0, 5, 7}}) // and a clone of it
+	s.fs.mu.Lock()
+	s.fs.panicRenamed = h
+	s.fs.mu.Unlock()
+	dst := 0
+	if cross {
+		dst = 2
+	}
+	s.exec(vhsOp{K: "renameat", A: []int{0, 0, 1, dst, 3}}) // /n1 -> /n3 or /n2/n3: answered EFAULT
+	s.fs.mu.Lock()
+	s.fs.panicRenamed = -1
+	s.fs.mu.Unlock()
+	s.exec(vhsOp{K: "getattr", A: []int{0, 0}}) // the server still serves
+	s.exec(vhsOp{K: "getattr", A: []int{1, 0}})
+	return s.gatedRecord("gated-renamed-panic", 2, s.broken == "")
+}
